@@ -17,6 +17,8 @@
 package pseudonymization
 
 import (
+	"errors"
+	"fmt"
 	"strconv"
 
 	"github.com/sirupsen/logrus"
@@ -35,6 +37,16 @@ func NewDataTokenizer(tokenizer common.Pseudoanonymizer) (*DataTokenizer, error)
 	return &DataTokenizer{tokenizer}, nil
 }
 
+// withoutValue strips the input from a number parsing error: the value comes from the client's statement and the
+// error ends up in log entries.
+func withoutValue(err error) error {
+	var numErr *strconv.NumError
+	if errors.As(err, &numErr) {
+		return fmt.Errorf("value is not a valid integer for the token type: %w", numErr.Err)
+	}
+	return err
+}
+
 // Tokenize the data in given context with provided settings.
 func (t *DataTokenizer) Tokenize(data []byte, context common.TokenContext, setting config.ColumnEncryptionSetting) ([]byte, error) {
 	anonymize := t.tokenizer.Anonymize
@@ -48,7 +60,7 @@ func (t *DataTokenizer) Tokenize(data []byte, context common.TokenContext, setti
 	case common.TokenType_Int32:
 		i, err := strconv.ParseInt(string(data), 10, 32)
 		if err != nil {
-			return nil, err
+			return nil, withoutValue(err)
 		}
 		newVal, err := anonymize(int32(i), context, common.TokenType_Int32)
 		if err != nil {
@@ -59,7 +71,7 @@ func (t *DataTokenizer) Tokenize(data []byte, context common.TokenContext, setti
 	case common.TokenType_Int64:
 		i, err := strconv.ParseInt(string(data), 10, 64)
 		if err != nil {
-			return nil, err
+			return nil, withoutValue(err)
 		}
 		newVal, err := anonymize(i, context, common.TokenType_Int64)
 		if err != nil {
